@@ -347,6 +347,23 @@ def _fill(length, pattern):
     return lead + _FILL_ONE[pattern](length)
 
 
+SUFFIX_TOKENS = (b'!10m', b'!10x', b'!0', b'!x', b'/33', b'/129', b'//', b':65536', b':x', b'=', b'=""', b'*', b'%', b'..', b'-',
+                 b'+', b'!', b'?', b'#', b'@')
+
+
+def _dep_constant_sites(raw):
+    """Places where the input holds a byte-string constant of one of the dependency's tables (a CT log id, ...):
+    [(start, end, the other constants of the same table)]."""
+    out = []
+    for table in wirefault.dependency_constant_tables():
+        for const in table:
+            at = raw.find(const)
+            if at >= 0:
+                out.append((at, at + len(const), [other for other in table if other != const]))
+                break
+    return out
+
+
 def _prefixed_spans(raw, limit=12):
     """(start, length) of values behind a 4- or 2-octet big-endian length prefix that fits exactly."""
     out = []
@@ -476,6 +493,13 @@ def _exec_sweep(doc, res):
         plan = [('trunc', cut, 0) for cut in range(len(raw))]
         values = SWEEP_VALUES + (TEXT_SWEEP_VALUES if wirefault.is_text(raw) else ())
         plan += [('set', off, val) for off in range(len(raw)) for val in values if raw[off] != val]
+        if wirefault.is_text(raw):
+            # short grammar fragments inserted at the end of every value (before a separator / at the end): size and
+            # prefix-length suffixes, ports, stray operators
+            ends = sorted({idx for idx, byte in enumerate(raw) if byte in b';, \r\n' and idx} | {len(raw)})
+            plan += [('ins', end, token.hex()) for end in ends[:48] for token in SUFFIX_TOKENS]
+        plan += [('swap', start, '%d:%s' % (end, other.hex())) for start, end, others in _dep_constant_sites(raw)
+                 for other in others]
     for mode, off, val in plan:
         if mode == 'trunc':
             data = raw[:off]
@@ -487,6 +511,15 @@ def _exec_sweep(doc, res):
             if data is None or data == raw:
                 continue
             res.stats['fault.pair'] += 1
+            entries = ('parse_immutable', )
+        elif mode == 'ins':
+            data = raw[:off] + bytes.fromhex(val) + raw[off:]
+            res.stats['fault.insert'] += 1
+            entries = ('parse_immutable', )
+        elif mode == 'swap':
+            end, other = val.split(':')
+            data = raw[:off] + bytes.fromhex(other) + raw[int(end):]
+            res.stats['fault.const'] += 1
             entries = ('parse_immutable', )
         elif mode == 'two':
             v1, second, v2 = (int(item) for item in val.split(':'))
